@@ -1282,3 +1282,95 @@ def c20(ctx):
     return "exploration", cov, ["struct types are built at run time with reflect.StructOf (exported field names); the two embedded and the unmarshaler types are "
                                 "pre-declared", "prefixes and names are clean slash-separated paths, as the property states",
                                 "arguments that are not pointers to structs are a fixed list of five checked in the driver"]
+
+
+# ----------------------------------------------------------------------------- C18
+def build_setec_cli(ctx):
+    from vcheck import GO, go_env, REPO
+    out = os.path.join(ctx.scratch, "bin", "setec")
+    os.makedirs(os.path.dirname(out), exist_ok=True)
+    p = subprocess.run([GO, "build", "-o", out, "./cmd/setec"], cwd=REPO, env=go_env(), capture_output=True, text=True)
+    if p.returncode != 0:
+        raise ToolTrouble("build of cmd/setec from %s failed:\n%s" % (REPO, (p.stdout + p.stderr)[-3000:]))
+    return out
+
+
+def validate_journeys(ctx, trace_path, parts):
+    """RoundTrip: journeys (a 'put' line + one 'obs' line per hop) validated in parallel chunks cut at 'put' lines."""
+    lines = open(trace_path).read().splitlines()
+    journeys, cur = [], []
+    for ln in lines:
+        if ln.startswith('{"ev":"put"') or '"ev":"put"' in ln[:40]:
+            if cur:
+                journeys.append(cur)
+            cur = []
+        cur.append(ln)
+    if cur:
+        journeys.append(cur)
+    buckets = [journeys[i::parts] for i in range(parts)]
+    ok = [0]
+
+    def one(bi):
+        js = buckets[bi]
+        flat = [l for j in js for l in j]
+        if not flat:
+            return
+        run = ctx.tlc("RoundTrip", "RoundTrip.cfg", files={"trace.ndjson": ("\n".join(flat) + "\n").encode()}, workers=1, name="rt-%d" % bi, timeout=1200)
+        if run.code == 0:
+            ok[0] += len(js)
+            return
+        hw = None
+        for ln in open(run.out, errors="replace"):
+            if ln.startswith('<<"HW", '):
+                hw = int(ln.split(",")[1].strip(" >\n"))
+        if hw is None or hw < 1 or hw > len(flat):
+            raise ToolTrouble("TLC failed on RoundTrip:\n" + run.tail(30))
+        # journey containing line hw
+        pos = 0
+        for j in js:
+            if pos + len(j) >= hw:
+                put = json.loads(j[0])
+                bad = json.loads(flat[hw - 1])
+                ctx.violation("roundtrip %s at %s" % (put.get("class"), bad.get("hop", bad.get("ev"))),
+                              "a %d-byte value (%s, sha256/8 %s) did not come back unchanged at hop %r: found=%s len=%s sum=%s" % (
+                                  put["len"], put.get("class"), put["sum"], bad.get("hop"), bad.get("found"), bad.get("len"), bad.get("sum")),
+                              {"kind": "journey", "lines": [json.loads(x) for x in j]})
+                break
+            pos += len(j)
+    pmap(one, range(parts), par=NCPU)
+    return ok[0], len(journeys)
+
+
+@check("C18")
+def c18(ctx):
+    th = ctx.thorough
+    # the byte journeys
+    results, wd, _ = ctx.godrive("e2e", "^TestRoundTrip$", env={"VERIF_TRACES": 2500 if th else 160, "VERIF_MAXLARGE": (4 << 20) if th else (1 << 20)},
+                                 name="roundtrip", timeout=3000)
+    rr = ctx.take(results, "e2e-roundtrip")
+    okj, nj = validate_journeys(ctx, os.path.join(wd, "trace.ndjson"), 8)
+    # the CLI table
+    cli = build_setec_cli(ctx)
+    results, wd2, _ = ctx.godrive("e2e", "^TestPutCli$", env={"VERIF_SETEC_BIN": cli, "VERIF_REPS": 6 if th else 2}, name="putcli", timeout=3000)
+    rc = ctx.take(results, "e2e-putcli")
+    tot = validate_trace_chunks(
+        ctx, "PutCliTrace", "PutCliTrace.cfg", os.path.join(wd2, "trace.ndjson"), 4,
+        keyfn=lambda e: "putcli %s %s verbatim=%s trim=%s emptyok=%s -> %s" % (e["class"], e["source"], e["verbatim"], e["trim"], e["emptyok"], e["outcome"]),
+        whatfn=lambda e, run: "`setec put` with input class %s from %s, --verbatim=%s --trim-space=%s --empty-ok=%s: exit %s, %s request(s), %s put(s), stored bytes "
+                              "are %r relative to the input; the specification (PutCli!Allowed) does not allow this. Output: %s" % (
+            e["class"], e["source"], e["verbatim"], e["trim"], e["emptyok"], e["exit"], e["requests"], e["puts"], e["outcome"], e.get("output", "")[:200]))
+    cov = {"evaluations": rr["counters"]["values"] * 8 + rc["counters"]["runs"], "distinct_nontrivial": rr["counters"]["values"] + rc["counters"]["runs"],
+           "rule": "journeys: one generated byte string (the named classes: empty, NUL, newlines, ASCII, invalid UTF-8, JSON / base64 look-alikes, all 256 byte "
+                   "values, then random short strings of every length residue mod 3, medium and large random strings up to 1 MiB (thorough 4 MiB), Unicode text "
+                   "with NULs and separators, runs of one byte) put through the real HTTP API and read back at 8 hops: get, get-version, both again after a server "
+                   "restart (db reopened from its file), a client Store, the Store's cache document, a successor Store started from that cache with the service "
+                   "unreachable, a file-backed client on the same file; TLC (RoundTrip) requires length and digest to equal what was put at every hop (the "
+                   "file-backed client may omit an empty value). CLI: the binary built from the working tree is run for every input class x {file, pipe} x all 8 "
+                   "flag subsets x several concrete inputs; TLC (PutCliTrace) checks exit status, number of requests and the stored bytes against PutCli!Allowed. "
+                   "distinct = values + CLI runs",
+           "samples": (rr.get("samples") or [])[:2] + (rc.get("samples") or [])[:3], "values": rr["counters"]["values"], "bytes_put": rr["counters"]["bytes"],
+           "journeys_validated": okj, "cli_runs": rc["counters"]["runs"], "cli_lines_validated": tot["validated"],
+           "states": tot["states"], "transitions": tot["generated"], "traces_validated_against_impl": okj + 1}
+    return "exploration", cov, ["universality over byte strings is by generation across the listed classes, not enumeration; the specification fixes the hops, the order "
+                                "and the one permitted exception", "WhoIs is the injected seam (every caller is granted everything); the interactive terminal path of "
+                                "`setec put` is not exercised (no terminal)"]
